@@ -100,10 +100,16 @@ func (c *ocodeClient) SetSymbolTable(symTable map[string]int32) {
 // SetBitMode メソッドの実装
 func (c *ocodeClient) SetBitMode(mode cpu.BitMode) { // Change cpu.BitMode to cpu.BitMode
 	c.ctx.BitMode = mode
+	// どの ocode から有効になるかを記録する (コード生成は pass1 が終わってから行われる)
+	c.ctx.BitModeChanges = append(c.ctx.BitModeChanges, codegen.BitModeChange{Index: len(c.Ocodes), Mode: mode})
 }
 
 // Exec メソッドの実装
 func (c *ocodeClient) Exec() ([]byte, error) {
+	// [BITS n] が記録されている場合は、最初のモードから始めて GenerateX86 に位置ごとに適用させる
+	if len(c.ctx.BitModeChanges) > 0 {
+		c.ctx.BitMode = c.bitMode
+	}
 	// 保持しているContextを使用
 	return codegen.GenerateX86(c.Ocodes, c.ctx), nil
 }
